@@ -203,6 +203,7 @@ def sample_repr(case):
 # PaintTransform), so intermediate values can exceed the final geometry several times; only geometry well below
 # int16 / 8 counts as comfortably in range
 SAFE_COORD = 4000.0
+DOMAIN_COORD = 16000.0
 
 
 def judge_rejection(v, r, refs, cfg):
@@ -227,6 +228,10 @@ def judge(case):
     case_classes(case, v)
     srcs = to_build_sources(case)
     refs = [Ref(s["svg"], cfg) for s in srcs]
+    if max([rf.max_coord() for rf in refs] + [0.0]) > DOMAIN_COORD:
+        # outside what OpenType outlines can express at all (glyf stores int16 *deltas*: an extent > 32767 cannot be encoded)
+        v.discard = "reference geometry beyond %d font units" % DOMAIN_COORD
+        return v
     r = build.build_font(cfg, srcs)
     if r.error is not None:
         judge_rejection(v, r, refs, cfg)
